@@ -315,6 +315,9 @@ impl SimClock {
     pub fn set(&self, t: Timestamp) {
         self.now.store(t, Ordering::SeqCst)
     }
+    pub fn now(&self) -> Timestamp {
+        self.now.load(Ordering::SeqCst)
+    }
     pub fn advance(&self, d: Timestamp) {
         self.now.fetch_add(d, Ordering::SeqCst);
     }
